@@ -1,0 +1,37 @@
+//go:build verif
+
+package pubsub
+
+import "sync/atomic"
+
+// Verification hooks (see /verif/DESIGN.md). They only observe or yield; no
+// hook changes what the library does.
+
+// VerifSchedPointFn, when set, is called at named schedule points.
+var VerifSchedPointFn atomic.Pointer[func(name string)]
+
+// VerifQueuePushFn, when set, is called under the queue lock at the end of
+// every rpcQueue push that returns (accepted or refused).
+var VerifQueuePushFn atomic.Pointer[func(q *VerifRPCQueue, rpc *RPC, urgent bool, err error)]
+
+// VerifOnNewPubSubFn, when set, is called by NewPubSub after the options have
+// been applied and before anything is started.
+var VerifOnNewPubSubFn atomic.Pointer[func(ps *PubSub)]
+
+func verifSchedPoint(name string) {
+	if f := VerifSchedPointFn.Load(); f != nil {
+		(*f)(name)
+	}
+}
+
+func verifQueuePush(q *rpcQueue, rpc *RPC, urgent bool, err error) {
+	if f := VerifQueuePushFn.Load(); f != nil {
+		(*f)(q, rpc, urgent, err)
+	}
+}
+
+func verifOnNewPubSub(ps *PubSub) {
+	if f := VerifOnNewPubSubFn.Load(); f != nil {
+		(*f)(ps)
+	}
+}
